@@ -263,6 +263,10 @@ func (ex *Exec) stmt1(st *State, s ast.Stmt, label string) []flow {
 					v = ex.zero(o.Type())
 					ex.structFieldsZero(st, v, nil)
 				}
+				if ex.boxed[o] {
+					ex.assign1(st, n, v, true)
+					continue
+				}
 				st.vars[o] = v
 				st.names[n.Name] = o
 			}
@@ -546,6 +550,25 @@ func (ex *Exec) assign1(st *State, lhs ast.Expr, v *Val, define bool) {
 			st.heaps[globalName(o)] = nv.Term
 			ex.globalWrites[globalName(o)] = true
 			return
+		}
+		if ex.boxed[o] {
+			if _, isStruct := o.Type().Underlying().(*types.Struct); isStruct {
+				cur, ok := st.vars[o]
+				if !ok || !cur.Boxed || define {
+					ref := ex.newRef(st)
+					cur = &Val{T: types.NewPointer(o.Type()), Term: ref, Boxed: true}
+					st.vars[o] = cur
+					st.names[l.Name] = o
+				}
+				p := *cur
+				p.Boxed = false
+				sv := ex.coerce(st, v, o.Type())
+				if sv.Note == "zero" {
+					ex.structFieldsZero(st, sv, nil)
+				}
+				ex.storeDeref(st, &p, sv, l.Pos())
+				return
+			}
 		}
 		st.vars[o] = ex.coerce(st, v, o.Type())
 		st.names[l.Name] = o
@@ -1104,6 +1127,65 @@ func (ex *Exec) callMods(c *ast.CallExpr, ms *modSet) {
 	}
 }
 
+// preTouch creates (with their entry symbols) the heaps a loop body mentions,
+// so that havocLoop can havoc them: a heap first touched inside the body would
+// otherwise wrongly keep its function-entry value on an arbitrary iteration.
+func (ex *Exec) preTouch(st *State, nodes ...ast.Node) {
+	for _, n := range nodes {
+		if n == nil {
+			continue
+		}
+		ast.Inspect(n, func(x ast.Node) bool {
+			switch e := x.(type) {
+			case *ast.SelectorExpr:
+				if si := ex.Info.Selections[e]; si != nil && si.Kind() == types.FieldVal {
+					base, _ := derefType(si.Recv())
+					idx := si.Index()
+					for i := 0; i < len(idx); i++ {
+						stt, ok := base.Underlying().(*types.Struct)
+						if !ok {
+							break
+						}
+						f := stt.Field(idx[i])
+						ex.heap(st, ex.fieldHeapName(base, f.Name()), arrSort(SInt, ex.sortOf(f.Type())))
+						base, _ = derefType(f.Type())
+					}
+				}
+			case *ast.IndexExpr:
+				if t := ex.typeOf(e.X); t != nil {
+					if sl, ok := t.Underlying().(*types.Slice); ok {
+						ex.mem(st, sl.Elem())
+					}
+				}
+			case *ast.RangeStmt:
+				if t := ex.typeOf(e.X); t != nil {
+					if sl, ok := t.Underlying().(*types.Slice); ok {
+						ex.mem(st, sl.Elem())
+					}
+				}
+			case *ast.CallExpr:
+				if t := ex.typeOf(e); t != nil {
+					if sl, ok := t.Underlying().(*types.Slice); ok {
+						ex.mem(st, sl.Elem())
+					}
+				}
+			}
+			return true
+		})
+	}
+	// ghost fields of the package's annotated types
+	for _, ts := range ex.U.TSpecs {
+		if o := ex.U.Pkg.Types.Scope().Lookup(ts.Name); o != nil {
+			for _, g := range ts.Ghosts {
+				gt := ex.parseSpecType(g.Type, ex.U)
+				ex.heap(st, ex.fieldHeapName(o.Type(), g.Name), arrSort(SInt, ex.sortOf(gt)))
+			}
+		}
+	}
+	ex.heap(st, "CtxDone", arrSort(SInt, SBool))
+	ex.mem(st, tByte)
+}
+
 // havocLoop havocs everything the loop may modify.
 func (ex *Exec) havocLoop(st *State, ms *modSet) {
 	var objs []types.Object
@@ -1270,6 +1352,7 @@ func (ex *Exec) forStmt(st *State, s *ast.ForStmt, label string) []flow {
 	ls := ex.loopSpec(path)
 	ex.loopInvs(st, ls, path, "init", false, s.Pos(), nil, "", nil)
 	ms := ex.modified(s.Body, s.Post, s.Cond)
+	ex.preTouch(st, s.Body, s.Post, s.Cond)
 	ex.havocLoop(st, ms)
 	ex.loopInvs(st, ls, path, "", true, s.Pos(), nil, "", nil)
 	ex.reachProbe(st, "loop"+path, s.Pos())
@@ -1415,6 +1498,7 @@ func (ex *Exec) rangeStmt(st *State, s *ast.RangeStmt, label string) []flow {
 			}
 		}
 	}
+	ex.preTouch(st, s.Body)
 	ex.havocLoop(st, ms)
 	k := ex.fresh(counter, SInt)
 	st.assume(ge(k, intLit(0)))
